@@ -148,6 +148,7 @@ def _all():
         _v("l_exBdt", "Literal('v', QualifiedName(Namespace('ex', 'http://b/'), 'dt'))", ["lit", "userlit"]),
         _v("l_foreign", "Literal('v', QualifiedName(Namespace('foo', 'http://c/'), 'dt'))", ["lit", "userlit", "foreignlit"]),
         _v("l_provdt", "Literal('v', PROVNS['Thing'])", ["lit"]),
+        _v("l_intl_nolang", "Literal('x', PROVNS['InternationalizedString'])", ["lit"]),
     ]
     qn = [
         QNameVal("q_exA", ("A", "v", ("q", "ex"))),
